@@ -26,6 +26,21 @@ def gen_cases(ctx):
         spec["detectors"].append({"kind": "closed_poynting", "box": [[2, 5], [2, 5], [3, 6]], "name": "cs"})
         spec["init"] = None
         cases.append({"kind": "cplx", "spec": spec})
+    # a mode source on a conductive (lossy) slab waveguide: the solved mode profile is complex, so the TFSF injection combines an
+    # in-phase and a quadrature carrier - the one place where forced complex storage could pick up an imaginary part
+    for i in range(ctx.pick(1, 2)):
+        sig = [1.0e4, 3.0e4][i % 2]
+        spec = {"shape": [24, 3, 26], "spacing": 5e-8, "steps": ctx.pick(60, 120), "wavelength": 1.55e-6,
+                "bt": {"min_x": "pml", "max_x": "pml", "min_y": "periodic", "max_y": "periodic", "min_z": "pml", "max_z": "pml"}, "thickness": 6,
+                "vol_material": {"eps": 2.25},
+                "blocks": [{"box": [[0, 24], [0, 3], [11, 15]], "eps": 12.25, "sigma_e": sig, "name": "core"}],
+                "sources": [{"kind": "mode", "axis": 0, "pos": 8, "dir": "+-"[i % 2], "mode_index": 0, "filter_pol": "te"}],
+                "detectors": [{"kind": "field", "box": [[14, 15], [0, 3], [6, 20]], "name": "fd"},
+                              {"kind": "energy", "box": [[14, 15], [0, 3], [6, 20]], "name": "en", "opts": {"as_slices": False}},
+                              {"kind": "poynting", "box": [[14, 15], [0, 3], [6, 20]], "name": "pf", "opts": {"direction": "+"}},
+                              {"kind": "phasor", "box": [[14, 15], [0, 3], [6, 20]], "name": "ph"}],
+                "init": None}
+        cases.append({"kind": "cplx", "spec": spec, "mode": True})
     for i in range(ctx.pick(3, 10)):
         c = C01.rand_case(ctx.rng, True, 4 * i)      # dyadic flavour
         c.pop("kvec", None)
